@@ -54,6 +54,7 @@ Template(n, now, ds) ==
     [] n = "B2"  -> Batch(A1, D, Half, 7, ts, e1, <<>>, 2, D)
     [] n = "B3"  -> Batch(A1, D, 1, 5, ts, e1, Sched3(e1 + 3), 3, 1)
     [] n = "B4"  -> Batch(A1, D, Half, 9, ts, e2, <<[t |-> e2 + 2, w |-> D]>>, 1, Half)
+    [] n = "B5"  -> Batch(A1, D, Half, 4, ts, e1, <<>>, 3, Half)
     [] n = "Bx"  -> Batch(A1, D, 1, 6, ts, e1, <<[t |-> e1 + 1, w |-> Half], [t |-> e1 + 2, w |-> D - Half]>>, 2, 1)
     [] n = "Bl"  -> Batch(A1, D, Half, 10, ts, e1, Sched3(e1 + 1), 1, 1)
     [] n = "BB"  -> [Batch(UserSeq[2], D, Half, 8, ts, e2, <<>>, 1, Half) EXCEPT !.sellDenom = "dB", !.payDenom = "dA"]
